@@ -115,12 +115,8 @@ theorem bufWrite_ok (buf : List UInt8) (off : Nat) (src : List UInt8) (h : off +
     bufWrite buf off src = some (buf.take off ++ src ++ buf.drop (off + src.length)) := by
   simp [bufWrite, h]
 
-theorem usub_eq (x y : Nat) (hy : y ≤ x) (hx : x < 2 ^ 32) : usub x y = x - y := by
-  unfold usub
-  have : y % 2 ^ 32 = y := Nat.mod_eq_of_lt (by omega)
-  rw [this]
-  have : x + 2 ^ 32 - y = (x - y) + 2 ^ 32 := by omega
-  rw [this, Nat.add_mod_right, Nat.mod_eq_of_lt (by omega)]
+theorem usub_eq (x y : Nat) (hy : y ≤ x) (_hx : x < 2 ^ 32) : usub x y = x - y := by
+  unfold usub; rw [if_pos hy]
 
 /-- what has to be shown about one algorithm to plug it into the frame -/
 structure Refines (A : Alg S) (Sp : Spec.Hash S) (lenOK : Nat → Prop) (cnt : Nat → Nat × Nat) : Prop where
@@ -321,6 +317,189 @@ theorem update_inv (R : Refines A Sp lenOK cnt) (c : Ctx S) (pre data : List UIn
       · simp only [happ, hH2]
       · rw [happ, ← htk, absorb_rem _ hB]
         simp only [List.length_append, hrl, Nat.mod_add_mod]
+
+theorem bufFill_prefix (buf : List UInt8) (off n : Nat) (h : off + n ≤ buf.length) :
+    ∃ buf', bufFill buf off n = some buf' ∧ buf'.length = buf.length ∧
+      buf'.take (off + n) = buf.take off ++ List.replicate n 0 := by
+  have := bufWrite_prefix buf off (List.replicate n 0) (by simpa using h)
+  simpa [bufFill] using this
+
+theorem eq_of_take_length {l t : List UInt8} {k : Nat} (h : l.take k = t) (hk : l.length = k) : l = t := by
+  rw [← h, ← hk, List.take_length]
+
+/-- `finish`, case "the length field fits behind the 0x80 byte" -/
+theorem finishCore_fit (R : Refines A Sp lenOK cnt) (H : S) (buffer t lenF : List UInt8)
+    (hbuf : buffer.length = A.B) (ht : buffer.take t.length = t) (hll : lenF.length = A.L)
+    (hf : t.length + 1 + A.L ≤ A.B) :
+    finishCore A H buffer t.length lenF =
+      .ok (Sp.out (Sp.compress H (t ++ ([0x80] ++ List.replicate (A.B - A.L - 1 - t.length) 0 ++ lenF))), wiped A) := by
+  have hB32 := R.B_lt
+  unfold finishCore
+  obtain ⟨buf1, hw1, hl1, ht1⟩ := bufWrite_prefix buffer t.length [0x80] (by simp; omega)
+  simp only [List.length_cons, List.length_nil, Nat.zero_add] at ht1
+  rw [ht] at ht1
+  have hus : usub A.B (t.length + 1) = A.B - (t.length + 1) := usub_eq _ _ (by omega) hB32
+  have hns : ¬ (A.B - (t.length + 1) < A.L) := by omega
+  simp only [hw1, finishSpill, hus, hns, ↓reduceIte]
+  have hus2 : usub (A.B - A.L) (t.length + 1) = A.B - A.L - (t.length + 1) :=
+    usub_eq _ _ (by omega) (by omega)
+  obtain ⟨buf3, hw3, hl3, ht3⟩ := bufFill_prefix buf1 (t.length + 1) (A.B - A.L - (t.length + 1)) (by omega)
+  have e3 : t.length + 1 + (A.B - A.L - (t.length + 1)) = A.B - A.L := by omega
+  rw [e3, ht1] at ht3
+  obtain ⟨buf4, hw4, hl4, ht4⟩ := bufWrite_prefix buf3 (A.B - A.L) lenF (by omega)
+  have e4 : A.B - A.L + lenF.length = A.B := by omega
+  rw [ht3, e4] at ht4
+  have hb4 := eq_of_take_length ht4 (by omega)
+  have e5 : A.B - A.L - 1 - t.length = A.B - A.L - (t.length + 1) := by omega
+  simp only [hus2, hw3, hw4]
+  rw [callTransform_eq R _ _ _ (by omega), List.take_of_length_le (by omega)]
+  simp only [R.digest_eq, hb4, e5, List.append_assoc]
+
+/-- `finish`, case "no room for the length field: two blocks" -/
+theorem finishCore_spill (R : Refines A Sp lenOK cnt) (H : S) (buffer t lenF : List UInt8)
+    (hbuf : buffer.length = A.B) (ht : buffer.take t.length = t) (hll : lenF.length = A.L)
+    (htl : t.length < A.B) (hf : A.B < t.length + 1 + A.L) :
+    finishCore A H buffer t.length lenF =
+      .ok (Sp.out (Sp.compress (Sp.compress H (t ++ [0x80] ++ List.replicate (A.B - (t.length + 1)) 0))
+            (List.replicate (A.B - A.L) 0 ++ lenF)), wiped A) := by
+  have hB32 := R.B_lt
+  have hLB := R.L_lt
+  unfold finishCore
+  obtain ⟨buf1, hw1, hl1, ht1⟩ := bufWrite_prefix buffer t.length [0x80] (by simp; omega)
+  simp only [List.length_cons, List.length_nil, Nat.zero_add] at ht1
+  rw [ht] at ht1
+  have hus : usub A.B (t.length + 1) = A.B - (t.length + 1) := usub_eq _ _ (by omega) hB32
+  have hs : A.B - (t.length + 1) < A.L := by omega
+  simp only [hw1, finishSpill, hus, hs, ↓reduceIte]
+  have hfill : ∃ buf2, (if t.length + 1 < A.B then
+        bufFill buf1 (t.length + 1) (A.B - (t.length + 1)) else some buf1) = some buf2 ∧
+      buf2 = t ++ [0x80] ++ List.replicate (A.B - (t.length + 1)) 0 := by
+    by_cases hlt1 : t.length + 1 < A.B
+    · obtain ⟨buf2, hw2, hl2, ht2⟩ := bufFill_prefix buf1 (t.length + 1) (A.B - (t.length + 1)) (by omega)
+      refine ⟨buf2, by simp [hlt1, hw2], ?_⟩
+      rw [ht1] at ht2
+      exact eq_of_take_length ht2 (by omega)
+    · refine ⟨buf1, by simp [hlt1], ?_⟩
+      have : A.B - (t.length + 1) = 0 := by omega
+      rw [this]
+      simp only [List.replicate_zero, List.append_nil]
+      exact eq_of_take_length ht1 (by omega)
+  obtain ⟨buf2, hw2, hb2⟩ := hfill
+  have hl2 : buf2.length = A.B := by rw [hb2]; simp; omega
+  simp only [hw2]
+  rw [callTransform_eq R _ _ _ (by omega), List.take_of_length_le (by omega)]
+  have hus2 : usub (A.B - A.L) 0 = A.B - A.L := usub_eq _ _ (by omega) (by omega)
+  obtain ⟨buf3, hw3, hl3, ht3⟩ := bufFill_prefix buf2 0 (A.B - A.L) (by omega)
+  simp only [Nat.zero_add, List.take_zero, List.nil_append] at ht3
+  obtain ⟨buf4, hw4, hl4, ht4⟩ := bufWrite_prefix buf3 (A.B - A.L) lenF (by omega)
+  have e4 : A.B - A.L + lenF.length = A.B := by omega
+  rw [ht3, e4] at ht4
+  have hb4 := eq_of_take_length ht4 (by omega)
+  simp only [hus2, hw3, hw4]
+  rw [callTransform_eq R _ _ _ (by omega), List.take_of_length_le (by omega)]
+  simp only [R.digest_eq, hb4, hb2]
+
+theorem pad_length_mod (R : Refines A Sp lenOK cnt) (msg : List UInt8) :
+    (Sp.pad msg).length % A.B = 0 := by
+  have hB := R.B_pos
+  have hL := R.L_lt
+  have hlt := Nat.mod_lt msg.length hB
+  have hdiv := Nat.div_add_mod msg.length A.B
+  simp only [Spec.Hash.pad, List.length_append, List.length_cons, List.length_nil, List.length_replicate,
+    R.lenField_len, ← R.B_eq, ← R.L_eq]
+  by_cases hf : msg.length % A.B + 1 + A.L ≤ A.B
+  · rw [padZeros_fit _ _ _ hf]
+    have : msg.length + (0 + 1) + (A.B - A.L - 1 - msg.length % A.B) + A.L = A.B * (msg.length / A.B) + A.B := by
+      omega
+    rw [this]; simp
+  · rw [padZeros_spill _ _ _ hL (by omega)]
+    have : msg.length + (0 + 1) + (2 * A.B - A.L - 1 - msg.length % A.B) + A.L
+        = A.B * (msg.length / A.B) + (A.B + A.B) := by
+      omega
+    rw [this, ← Nat.add_assoc]; simp
+
+/-- the specification's value in terms of the absorbed prefix -/
+theorem hash_eq_absorb (R : Refines A Sp lenOK cnt) (msg : List UInt8) :
+    Sp.hash msg = Sp.out (absorb A.B Sp.compress (absorb A.B Sp.compress Sp.iv msg).1
+      ((absorb A.B Sp.compress Sp.iv msg).2 ++
+        ([0x80] ++ List.replicate (Spec.padZeros A.B A.L msg.length) 0 ++ Sp.lenField msg.length))).1 := by
+  have hB := R.B_pos
+  have := absorb_blocks Sp.compress Sp.iv (Sp.pad msg) (pad_length_mod R msg)
+  have h1 : List.foldl Sp.compress Sp.iv (blocks A.B (Sp.pad msg)) =
+      (absorb A.B Sp.compress Sp.iv (Sp.pad msg)).1 := by rw [this]
+  unfold Spec.Hash.hash
+  rw [← R.B_eq, h1]
+  simp only [Spec.Hash.pad, List.append_assoc, ← R.B_eq, ← R.L_eq]
+  rw [absorb_append _ hB]
+
+theorem finish_correct (R : Refines A Sp lenOK cnt) (c : Ctx S) (msg : List UInt8)
+    (hI : Inv A Sp cnt c msg) :
+    finish A c = .ok (Sp.hash msg, wiped A) := by
+  have hB := R.B_pos
+  have hLB := R.L_lt
+  obtain ⟨hbuf, hcnt, hH, htail⟩ := hI
+  have hc1 : c.count = (cnt msg.length).1 := by rw [← hcnt]
+  have hc2 : c.countHi = (cnt msg.length).2 := by rw [← hcnt]
+  have hbh : c.count % A.B = msg.length % A.B := by rw [hc1]; exact R.cnt_mod _
+  have hlen : A.putLen c.countHi (c.count * 8 % 2 ^ 64) = Sp.lenField msg.length := by
+    rw [hc1, hc2]; exact R.putLen_eq _
+  have hll : (Sp.lenField msg.length).length = A.L := by rw [R.lenField_len, R.L_eq]
+  rw [hash_eq_absorb R msg]
+  generalize hr : absorb A.B Sp.compress Sp.iv msg = r at hH htail
+  have hrl : r.2.length = msg.length % A.B := by rw [← hr]; exact absorb_rem _ hB _ _
+  have hlt : r.2.length < A.B := by rw [hrl]; exact Nat.mod_lt _ hB
+  unfold finish
+  simp only [hbh, hlen]
+  rw [← hrl] at htail ⊢
+  rw [hH]
+  by_cases hf : r.2.length + 1 + A.L ≤ A.B
+  · rw [finishCore_fit R _ _ _ _ hbuf htail hll hf, padZeros_fit _ _ _ (by rw [← hrl]; exact hf), ← hrl]
+    rw [absorb_ge _ _ _ hB (by simp [hll]; omega), List.take_of_length_le (by simp [hll]; omega),
+      List.drop_eq_nil_of_le (by simp [hll]; omega), absorb_lt _ _ [] hB]
+  · rw [finishCore_spill R _ _ _ _ hbuf htail hll hlt (by omega),
+      padZeros_spill _ _ _ hLB (by rw [← hrl]; omega), ← hrl]
+    have hsplit : r.2 ++ ([0x80] ++ List.replicate (2 * A.B - A.L - 1 - r.2.length) 0 ++ Sp.lenField msg.length)
+        = (r.2 ++ [0x80] ++ List.replicate (A.B - (r.2.length + 1)) 0) ++
+          (List.replicate (A.B - A.L) 0 ++ Sp.lenField msg.length) := by
+      have : 2 * A.B - A.L - 1 - r.2.length = (A.B - (r.2.length + 1)) + (A.B - A.L) := by omega
+      rw [this, ← List.replicate_append_replicate]
+      simp only [List.append_assoc]
+    have hl2 : (r.2 ++ [0x80] ++ List.replicate (A.B - (r.2.length + 1)) 0).length = A.B := by
+      simp; omega
+    have hl4 : (List.replicate (A.B - A.L) 0 ++ Sp.lenField msg.length).length = A.B := by
+      simp [hll]; omega
+    rw [hsplit, absorb_ge _ _ _ hB (by rw [List.length_append, hl2]; omega),
+      List.take_append_of_le_length (by omega),
+      List.take_of_length_le (by omega), List.drop_append_of_le_length (by omega),
+      List.drop_eq_nil_of_le (by omega), List.nil_append,
+      absorb_ge _ _ _ hB (by omega), List.take_of_length_le (by omega), List.drop_eq_nil_of_le (by omega),
+      absorb_lt _ _ [] hB]
+
+theorem feed_inv (R : Refines A Sp lenOK cnt) (chunks : List (Nat × List UInt8)) :
+    ∀ (c : Ctx S) (pre : List UInt8), Inv A Sp cnt c pre → (∀ ch ∈ chunks, lenOK ch.2.length) →
+    ∃ c', feed A c chunks = .ok c' ∧ Inv A Sp cnt c' (pre ++ (chunks.map (·.2)).flatten) := by
+  induction chunks with
+  | nil => intro c pre hI _; exact ⟨c, rfl, by simpa using hI⟩
+  | cons ch rest ih =>
+    intro c pre hI hl
+    obtain ⟨addr, d⟩ := ch
+    obtain ⟨c1, hu, hI1⟩ := update_inv R c pre d addr hI (hl (addr, d) (by simp))
+    obtain ⟨c2, hf, hI2⟩ := ih c1 (pre ++ d) hI1 (fun ch h => hl ch (by simp [h]))
+    refine ⟨c2, ?_, ?_⟩
+    · simp only [feed, hu, hf]
+    · simpa [List.append_assoc] using hI2
+
+/-- **Generic C16 statement.**  Whatever context is passed in (fresh from `malloc`, wiped by an
+    earlier `finish`, or abandoned in mid-message) — after `init`, feeding any list of chunks at
+    any addresses and `finish` yields the specification's hash of the concatenation, never
+    faults, and leaves the wiped context. -/
+theorem run_correct (R : Refines A Sp lenOK cnt) (c : Ctx S) (hc : c.buffer.length = A.B)
+    (chunks : List (Nat × List UInt8)) (hl : ∀ ch ∈ chunks, lenOK ch.2.length) :
+    run A c chunks = .ok (Sp.hash (chunks.map (·.2)).flatten, wiped A) := by
+  obtain ⟨c', hf, hI⟩ := feed_inv R chunks (init A c) [] (inv_init R c hc) hl
+  simp only [run, hf]
+  simpa using finish_correct R c' _ hI
+
 
 end
 end Mhd.Hash
